@@ -23,7 +23,7 @@ RULE = ("NP2.4 recordings whose first rows contain all 65536 int16 values (or al
         "(gain, assignment mode, #shanks, window, ns, options)")
 ASSUMPTIONS = ["byte comparison uses harness code (numpy.fromfile / mtscomp), never the repository's reader",
                "metadata equality is judged on the parsed dictionaries (tilde prefixes are not part of a key)"]
-REQUIRED = {"shank_files_compared": 8, "reconstructions": 3, "meta_fields_compared": 100, "values_all_int16": 1, "second_passes": 4, "shank_files_opened": 8, "limited_precision_durations": 5, "compressed_originals": 3, "resplits": 4, "stale_metadata_in_output_folder": 5, "runs_over_leftover_shank_folders": 1}
+REQUIRED = {"stale_compressed_reassembly_in_output_folder": 2, "shank_files_compared": 8, "reconstructions": 3, "meta_fields_compared": 100, "values_all_int16": 1, "second_passes": 4, "shank_files_opened": 8, "limited_precision_durations": 5, "compressed_originals": 3, "resplits": 4, "stale_metadata_in_output_folder": 5, "runs_over_leftover_shank_folders": 1}
 CASE_TIMEOUT = 120.0
 MAX_PROCS = 12
 
@@ -205,6 +205,20 @@ def run_case(case):
             (d / "probe00" / (np2.NAME + ".meta")).write_text(stale)
             label += f" (output folder holds the metadata of an earlier reassembly, {ns + dns} samples)"
             res.count("stale_metadata_in_output_folder")
+        if rcomp and (i % 3 == 2 or rng.random() < 0.15):
+            # round 21: ... or the COMPRESSED reassembly of an earlier recording of this probe (other samples, other length) under the very name the
+            # reassembly made now will be published with
+            import mtscomp as _mt
+            nso = int(rng.integers(400, 1500))
+            (d / "probe00").mkdir(exist_ok=True)
+            tmpb = d / "earlier.bin"
+            rng.integers(-32768, 32768, (nso, 385)).astype(np.int16).tofile(tmpb)
+            co = d / "probe00" / (np2.NAME + ".cbin")
+            _mt.compress(tmpb, out=co, outmeta=co.with_suffix(".ch"), sample_rate=rec.fs, n_channels=385, dtype=np.int16, chunk_duration=0.02,
+                         check_after_compress=False)
+            tmpb.unlink()
+            label += f" (output folder holds the compressed reassembly of an earlier recording, {nso} samples)"
+            res.count("stale_compressed_reassembly_in_output_folder")
         rc = neuropixel.NP2Reconstructor(d, "probe00", compress=rcomp)
         st = rc.process()
         res.check(st == 1, "reconstruct:status", f"{label}: reconstructor returned {st}")
